@@ -174,7 +174,14 @@ func TestGenerated(t *testing.T) {
 		hx.Eval(1)
 		o := judge(rt, test, "own-generator", "; source: own-generator\n"+x, true)
 		if o.V == orc.OK {
-			if d := inventory(m, o.M, len(noise.TypeAlias)); d != "" {
+			// named function types of call sites (Noise.FnAlias) are definitions of their own
+			fnAliases := 0
+			for _, l := range strings.Split(x, "\n") {
+				if strings.HasPrefix(l, "%$fn") || strings.HasPrefix(l, `%"$fn`) {
+					fnAliases++
+				}
+			}
+			if d := inventory(m, o.M, len(noise.TypeAlias)+fnAliases); d != "" {
 				hx.Fail(rt, test, "ll", "; source: own-generator\n"+x, "inventory: %s (LLVM's canonical form drops unused definitions and applied use-list orders, so these are compared directly)\n--- printed output ---\n%s", d, o.Out)
 			}
 			for k, v := range feats {
